@@ -97,13 +97,14 @@ def run_server(maxline, ops):
         httping.MAX_LINE_SIZE = old
 
 
-def run_client(method, maxline, ops):
+def run_client(method, maxline, ops, dictable=False):
     """ops: bytes (received, then serviceResponse) | "c" (cutoff)"""
     from ioflo.aio.http import httping, clienting
     old = httping.MAX_LINE_SIZE
     httping.MAX_LINE_SIZE = maxline
     try:
-        patron = clienting.Patron(hostname="127.0.0.1", port=8080, method=method, path="/x", redirectable=False)
+        patron = clienting.Patron(hostname="127.0.0.1", port=8080, method=method, path="/x", redirectable=False,
+                                  dictable=dictable)
         patron.connector.serviceReceives = lambda: None
         patron.transmit(method=method)      # (a bare transmit() resets respondent.method to GET: D34c, C34)
         raised = None
@@ -144,6 +145,69 @@ BADRSP = [b"HTTP/1.1 200 OK\r\nTransfer-Encoding: chunked\r\n\r\nzz\r\n", b"HTTP
           b"FTP/1.1 200 OK\r\n\r\n", b"HTTP/3.0 200 OK\r\n\r\n", b"HTTP/1.1 200 OK\r\nNoColon\r\n\r\n", b"\r\n",
           b"HTTP/1.1 200 OK\r\nTransfer-Encoding: chunked\r\n\r\n1\r\nab\r\n0\r\n\r\n",
           b"HTTP/1.1 200 OK\r\nTransfer-Encoding: chunked\r\n\r\n\xe91\r\n", b"HTTP/1.1 100 Continue\r\n\r\nHTTP/1.1 abc\r\n\r\n"]
+
+
+# ---- header-value family: every header the parsers interpret, with ordinary, odd and broken values.
+# Small enough to be enumerated completely in every run (quick included), for Requestant and Respondent.
+HV = {
+    "Content-Type": ["text/plain", "application/json", "application/json; charset=utf-8", "text/plain; foo", "text/plain;",
+                     "text/plain;;", "text;plain", "; charset=utf-8", ";", "text/plain; charset=", "text/plain; =",
+                     "text/plain; =utf-8", "text/plain; a=b; c", "text/plain; a=b; c=d", "text/plain; charset=\"utf-8\"",
+                     "multipart/form-data; boundary=\"a;b\"", "APPLICATION/JSON;Charset", "\xe9/\xe9; \xe9", "text/plain ; x = y ",
+                     "=", "a=b", "text/event-stream", "text/event-stream; foo"],
+    "Content-Length": ["3", "0", "abc", "-5", "+3", "1_0", "3.0", "0x3", "99999999999999999999", "9" * 4301, "3, 3", "1e3",
+                       "\xb3", "3\xa0", "", "3 3", "03"],
+    "Transfer-Encoding": ["chunked", "Chunked", "CHUNKED ", "gzip, chunked", "chunked, gzip", "identity", "", "chunked;q=1",
+                          "chunked chunked", "\xe7hunked"],
+    "Connection": ["close", "keep-alive", "Keep-Alive, Upgrade", "closed", "", "upgrade", "close, keep-alive", "CLOSE", ";"],
+    "Keep-Alive": ["timeout=5", "", "x"],
+    "Proxy-Connection": ["keep-alive", "close", ""],
+    "Host": ["h", "h:80", "h:x", "h:99999", "[::1]:80", "", "h:80:90", "\xe9"],
+}
+TARGETS = ["/", "*", "http://h/", "http://h:80/", "http://h:x/", "http://h:-1/", "http://h:65536/", "http://h:/", "http://h:0080/",
+           "//h:x", "//h:7/p", "http://u@h:9z/", "http://u:p@h:9/", "HTTP://H:1", "a:b", "/p:x", "http://h:1:2/", "http://h?:x"]
+
+
+# ---- body family: what the layers above the parser do with a correctly framed body (json decoding in
+# Parsent.dictify for json content types or a dictable Patron)
+BODIES = [b"", b"{}", b"{\"a\": 1}", b"[1, 2", b"nul", b"\xff", b"{\"a\": \"\xe9\"}", b"\xe6\x97", b"\xef\xbb\xbf{}", b"\x00", b"{\"a\": \"\xc3\xa9\"}"]
+BODY_CT = ["application/json", "application/json; charset=utf-8", "text/plain", None]
+
+
+def body_streams(kind):
+    out = []
+    for ct in BODY_CT:
+        for b in BODIES:
+            for framing in ("length", "chunked", "close"):
+                if kind == "req" and framing == "close":
+                    continue
+                head = b"POST /x HTTP/1.1\r\n" if kind == "req" else b"HTTP/1.1 200 OK\r\n"
+                if ct:
+                    head += b"Content-Type: " + ct.encode() + b"\r\n"
+                if framing == "length":
+                    s = head + b"Content-Length: %d\r\n\r\n" % len(b) + b
+                elif framing == "chunked":
+                    s = head + b"Transfer-Encoding: chunked\r\n\r\n" + (b"%x\r\n" % len(b) + b + b"\r\n" if b else b"") + b"0\r\n\r\n"
+                else:
+                    s = head + b"\r\n" + b
+                out.append(("body/%s/%s/%r" % (ct, framing, b[:8]), s, framing == "close"))
+    return out
+
+
+def hv_streams(kind):
+    """(label, stream) for every header value (and, for requests, every target) of the family"""
+    out = []
+    for ver in ("HTTP/1.1", "HTTP/1.0"):
+        for name, values in HV.items():
+            for v in values:
+                body = b"abc" if name == "Content-Length" else b"1\r\na\r\n0\r\n\r\n" if name == "Transfer-Encoding" else b""
+                head = ("POST /x %s" % ver) if kind == "req" else ("%s 200 OK" % ver)
+                line = ("%s: %s" % (name, v)).encode("iso-8859-1")
+                out.append(("%s/%s/%s" % (ver, name, v[:24]), head.encode() + b"\r\n" + line + b"\r\n\r\n" + body))
+        if kind == "req":
+            for t in TARGETS:
+                out.append(("%s/target/%s" % (ver, t), ("GET %s %s\r\nHost: h\r\n\r\n" % (t, ver)).encode()))
+    return out
 
 
 class CHECK(core.Check):
@@ -266,6 +330,28 @@ class CHECK(core.Check):
             cuts = range(1, len(bad)) if tier == "thorough" else []
             for cut in [None] + list(cuts):
                 yield self._client_case(rng, bad=bad, cut=cut)
+        # the header-value family, complete in every tier: each value on one connection of a Valet with
+        # well-behaved neighbours, as a response to a Patron, and through the bare parsers
+        for label, stream in hv_streams("req"):
+            c = self._server_case(rng, bad=stream, cut=None)
+            c["hv"] = label
+            yield c
+            yield {"type": "parser", "kind": "req", "method": "GET", "max": 65536, "stream": hx(stream), "rest": "-",
+                   "cuts": [len(stream) // 2], "close": False, "next": False, "hv": label}
+        for label, stream in hv_streams("rsp"):
+            for method in ("GET", "HEAD"):
+                yield {"type": "client", "method": method, "max": 65536, "ops": ["f" + hx(stream), "c"], "hv": label}
+            yield {"type": "parser", "kind": "rsp", "method": "GET", "max": 65536, "stream": hx(stream), "rest": "-",
+                   "cuts": [len(stream) // 2], "close": True, "next": False, "hv": label}
+        # the body family: correctly framed messages whose body is / is not json, is / is not UTF-8
+        for label, stream, close in body_streams("rsp"):
+            for dictable in (False, True):
+                yield {"type": "client", "method": "GET", "max": 65536, "ops": ["f" + hx(stream)] + (["c"] if close else []),
+                       "dictable": dictable, "hv": label}
+        for label, stream, close in body_streams("req"):
+            c = self._server_case(rng, bad=stream, cut=None)
+            c["hv"] = label
+            yield c
 
     def generate(self, rng, n, tier):
         for i in range(n):
@@ -288,7 +374,7 @@ class CHECK(core.Check):
             out = run_server(case["max"], case["ops"])[0]
         elif case["type"] == "client":
             ops = ["c" if o == "c" else unhx(o[1:]) for o in case["ops"]]
-            out = run_client(case["method"], case["max"], ops)[0]
+            out = run_client(case["method"], case["max"], ops, case.get("dictable", False))[0]
         else:
             out = self.p29.impl(case)
         self._impl_out[core.case_key(case)] = out
@@ -333,7 +419,7 @@ class CHECK(core.Check):
             return None
         if case["type"] == "client":
             ops = ["c" if o == "c" else unhx(o[1:]) for o in case["ops"]]
-            lines, raised = run_client(case["method"], case["max"], ops)
+            lines, raised = run_client(case["method"], case["max"], ops, case.get("dictable", False))
             if raised:
                 return "exception %s left Patron.serviceResponse()" % raised
             return None
